@@ -198,6 +198,25 @@ pub fn check_queries(o: &mut Object, expected: &J, keys: &[String]) -> Option<J>
 	if o.first().map(entry_j) != es.first().cloned() || o.last().map(entry_j) != es.last().cloned() {
 		return Some(json!({"query": "first/last"}));
 	}
+	{
+		let ob: &Object = o;
+		let routes: [(&str, Option<String>); 3] = [
+			("iter", iter_routes(&|| ob.iter().map(entry_j))),
+			("&Object into_iter", iter_routes(&|| ob.into_iter().map(entry_j))),
+			("Object into_iter", iter_routes(&|| ob.clone().into_iter().map(|e| entry_j(&e)))),
+		];
+		for (name, r) in routes {
+			if let Some(route) = r {
+				return Some(json!({"query": name, "route": route, "what": "consuming the iterator this way does not give the elements next() gives"}));
+			}
+		}
+		let mut c = o.clone();
+		let via_mut: Vec<J> = (&mut c).into_iter().map(|(k, v)| json!({"k": str_to_cps(k.as_str()), "v": unval(v)})).collect();
+		let via_iter_mut: Vec<J> = c.iter_mut().map(|(k, v)| json!({"k": str_to_cps(k.as_str()), "v": unval(v)})).collect();
+		if J::Array(via_mut) != *expected || J::Array(via_iter_mut) != *expected {
+			return Some(json!({"query": "iter_mut / &mut into_iter"}));
+		}
+	}
 	let owned: Vec<Entry> = o.clone().into_iter().collect();
 	if owned_entries_j(owned) != *expected {
 		return Some(json!({"query": "into_iter"}));
@@ -226,6 +245,22 @@ pub fn check_queries(o: &mut Object, expected: &J, keys: &[String]) -> Option<J>
 		chk!("get_entries", o.get_entries(k).map(entry_j).collect::<Vec<_>>(), ents);
 		chk!("get_with_index", o.get_with_index(k).map(|(i, v)| json!([i, unval(v)])).collect::<Vec<_>>(), scan.iter().map(|&i| json!([i, es[i]["v"]])).collect::<Vec<_>>());
 		chk!("get_entries_with_index", o.get_entries_with_index(k).map(|(i, e)| json!([i, entry_j(e)])).collect::<Vec<_>>(), scan.iter().map(|&i| json!([i, es[i]])).collect::<Vec<_>>());
+		// every way of consuming the query iterators
+		{
+			let ob: &Object = o;
+			let routes: [(&str, Option<String>); 5] = [
+				("indexes_of", iter_routes(&|| ob.indexes_of(k).map(|i| json!(i)))),
+				("get", iter_routes(&|| ob.get(k).map(unval))),
+				("get_entries", iter_routes(&|| ob.get_entries(k).map(entry_j))),
+				("get_with_index", iter_routes(&|| ob.get_with_index(k).map(|(i, v)| json!([i, unval(v)])))),
+				("get_entries_with_index", iter_routes(&|| ob.get_entries_with_index(k).map(|(i, e)| json!([i, entry_j(e)])))),
+			];
+			for (name, r) in routes {
+				if let Some(route) = r {
+					return Some(json!({"query": name, "key": kc, "route": route, "what": "consuming the iterator this way does not give the elements next() gives"}));
+				}
+			}
+		}
 		let uniq = |r: Result<Option<J>, (J, J)>| match r {
 			Ok(None) => json!("none"),
 			Ok(Some(v)) => json!({"one": v}),
